@@ -57,15 +57,21 @@ def valid_stream_st(draw):
                 body = (b"\xfe\xff" if cs == "utf-16" else b"\x00\x00\xfe\xff") + body
             labels.append("charset")
         elif kind == "binary":
-            meta = draw(st.sampled_from(["image/png", "application/octet-stream", "audio/ogg", "application/gzip"]))
-            body = draw(st.one_of(st.binary(max_size=300), st.just(bytes(range(256)) * 4), st.just(b"x" * c13.CAP)))
+            meta = draw(st.sampled_from(["image/png", "application/octet-stream", "audio/ogg", "application/gzip",
+                                         # structured types that are text-like but not text/*: bytes in whatever encoding their own
+                                         # prolog declares
+                                         "image/svg+xml", "application/atom+xml", "application/json", "application/xml",
+                                         "application/ld+json; profile=x", "application/xhtml+xml"]))
+            body = draw(st.one_of(st.binary(max_size=300), st.just(bytes(range(256)) * 4), st.just(b"x" * c13.CAP),
+                                  st.just('<?xml version="1.0" encoding="ISO-8859-1"?><t>caf\u00e9</t>'.encode("latin-1")),
+                                  st.just('{"k": "\u00e9"}'.encode("utf-16"))))
             labels.append("binary")
         else:
             meta = ""
             body = b"default type body\n"
     else:
         meta = draw(st.sampled_from(["gemini://other.example/next", "Not found", "Slow down", "Enter query", "", "Certificate required",
-                                     "gemini://up.example/loop", "é non-ascii meta",
+                                     "gemini://up.example/loop", "é non-ascii meta", "/moved/here", "../x", "name", "?q=1", "//other.example/x",
                                      "é" * 400, "é" * 512, "é" * 513, "日" * 342, "gemini://up.example/" + "ü" * 600]))
         body = b""
     return {"stream": b2s(f"{status} {meta}\r\n".encode("utf-8") + body), "labels": labels + ["conforming"]}
